@@ -1,4 +1,5 @@
 import LinfaSpec.Proofs.Smo
+import LinfaSpec.Proofs.SmoKkt
 import Mathlib.Algebra.Order.Field.Rat
 
 /-!
@@ -22,8 +23,16 @@ commits), over any linearly ordered field `α` — the same definitions the driv
 * the whole main loop (`solve_loop_feasible`): selection, step, shrinking with its swaps, gradient
   reconstruction and re-activation keep the point in the box with the initial `Σ y α`, for every fuel.
 
-Not proved (correspondence / oracle only): termination, optimality of the selected pair, that the
-final point is a KKT point.  IEEE rounding is outside these statements.
+* the exit test implies the eps-KKT conditions (`exit_test_implies_kkt`, `exit_test_implies_kkt_nu`):
+  if `gmax + gmax2 < eps` (nu: `max(gmaxp1 + gmaxp2, gmaxn1 + gmaxn2) < eps`) holds for the state's
+  gradient, then with the `rho` (nu: `r ± rho`) of `calculate_rho(_nu)` every active variable satisfies
+  the clause set of the oracle clauses `kkt` / `kkt_nu`; and `solve_returns_kkt_or_maxiter`: whatever
+  `solveLoop` returns is feasible, and when it ended by `break` (exit reason "threshold") it is eps-KKT.
+
+Not proved (correspondence / oracle only): termination; that the state's gradient is `p + Qα`
+(maintained incrementally by `update`, rebuilt by `reconstruct_gradient`; oracle clauses
+`gradient_active`, `gradient_fixed`, `gradient_reconstructed` after every scripted step) — the KKT
+theorems are about the gradient the solver holds.  IEEE rounding is outside these statements.
 -/
 namespace LinfaSpec.Props.C13
 open LinfaSpec.Smo
@@ -190,6 +199,176 @@ theorem shrinking_preserves_feasible (e : Env α) (s : St α)
     Box (doShrinking e s) ∧ ySum (doShrinking e s) = ySum s := by
   have h := doShrinking_feas s.alpha.length (ySum s) e s ⟨hb, hy, rfl, hn, rfl⟩
   exact ⟨h.1, h.2.2.2.2⟩
+
+
+/-! ### the exit test implies the eps-KKT conditions the oracle checks -/
+
+/-- a two-sample problem at its optimum: `x = ±1` (`K = [[1,-1],[-1,1]]`), labels `+ -`, `C = 1`,
+`α = (1/2, 1/2)`, gradient `p + Qα = 0` -/
+def kEnv : Env ℚ :=
+  { K := [[1, -1], [-1, 1]], y0 := [true, false], eps := 1/1000, tiny := 1/10000000000, inf := 1000000 }
+
+def kSt : St ℚ :=
+  { alpha := [1/2, 1/2], ub := [1, 1], grad := [0, 0], gbar := [0, 0], active := [0, 1], nactive := 2,
+    unshrink := false, p := [-1, -1], y := [true, false], bounds := [1, 1], kidx := [0, 1] }
+
+/-- **the stopping test implies the eps-KKT conditions** (plain form).  For any solver state — any
+kernel, any coefficients, any `n`, any bounds, over the active range (all variables after the final
+re-activation) — if the code's test `gmax + gmax2 < eps` holds for the gradient the state holds, then
+with `rho := calculate_rho()` every active `i` satisfies the clause set of the oracle clause `kkt`:
+`-y_i G_i + rho ≤ eps` if `i ∈ I_up` (positive below its bound / negative above zero) and
+`-y_i G_i + rho ≥ -eps` if `i ∈ I_low` (so `|y_i G_i - rho| ≤ eps` for a free variable; for
+C-classification, `p = -1`, this is `y_i f(x_i) ≥ 1 - eps` resp. `≤ 1 + eps`, the clause `kkt_margin`).
+Guards: `eps ≥ 0` and positive bounds (`SvmParams::check`: `InvalidEps`, `InvalidC`); `e.inf` stands
+for `F::infinity()`, so it bounds every gradient entry. -/
+theorem exit_test_implies_kkt (e : Env α) (s : St α) (heps : 0 ≤ e.eps)
+    (hpos : ∀ k, k < s.nactive → 0 < gf s.ub k)
+    (hdom : ∀ k, k < s.nactive → -e.inf ≤ gf s.grad k ∧ gf s.grad k ≤ e.inf)
+    (hstop : (maxViolatingPair e s).1.1 + (maxViolatingPair e s).2.1 < e.eps) :
+    KktEps s (calculateRhoC e s) e.eps :=
+  gap_implies_kkt e s heps (fun k hk => upper_not_lower s k (hpos k hk))
+    (fun k hk => dom_yG e s k (hdom k hk)) (exit_test_gap e s hstop)
+
+example : 0 ≤ kEnv.eps ∧ (∀ k, k < kSt.nactive → 0 < gf kSt.ub k) ∧
+    (∀ k, k < kSt.nactive → -kEnv.inf ≤ gf kSt.grad k ∧ gf kSt.grad k ≤ kEnv.inf) ∧
+    (maxViolatingPair kEnv kSt).1.1 + (maxViolatingPair kEnv kSt).2.1 < kEnv.eps := by
+  decide +kernel
+
+/-- on the example both variables are free and `rho = 0` -/
+example : calculateRhoC kEnv kSt = 0 := by decide +kernel
+
+/-- **the nu stopping test implies the eps-KKT conditions of the nu dual**: if
+`max(gmaxp1 + gmaxp2, gmaxn1 + gmaxn2) < eps`, then with `(rho, r) := calculate_rho_nu()` every
+active variable of the positive class satisfies `G_i ≥ (r + rho) - eps` below its bound and
+`G_i ≤ (r + rho) + eps` above zero, every variable of the negative class the same with `r - rho`
+(the clause set of the oracle clause `kkt_nu`). -/
+theorem exit_test_implies_kkt_nu (e : Env α) (s : St α) (heps : 0 ≤ e.eps)
+    (hpos : ∀ k, k < s.nactive → 0 < gf s.ub k)
+    (hdom : ∀ k, k < s.nactive → -e.inf ≤ gf s.grad k ∧ gf s.grad k ≤ e.inf)
+    (hstop : maxS ((maxViolatingPairNu e s).1.1 + (maxViolatingPairNu e s).2.2.1.1)
+      ((maxViolatingPairNu e s).2.1.1 + (maxViolatingPairNu e s).2.2.2.1) < e.eps) :
+    KktNuEps s ((calculateRhoNu e s).2 + (calculateRhoNu e s).1)
+      ((calculateRhoNu e s).2 - (calculateRhoNu e s).1) e.eps := by
+  obtain ⟨h1, h2⟩ := calculateRhoNu_split e s
+  rw [h1, h2]
+  have hul := fun k hk => upper_not_lower s k (hpos k hk)
+  intro i hi
+  cases hy : gb s.y i
+  · simpa using nu_gap_class e s false heps hul hdom (exit_test_gap_nu e s hstop false) i hi hy
+  · simpa using nu_gap_class e s true heps hul hdom (exit_test_gap_nu e s hstop true) i hi hy
+
+/-- the same example read as a nu problem (`p = 0` would shift `G` by a constant per class; the test
+only compares inside a class) -/
+example : maxS ((maxViolatingPairNu kEnv kSt).1.1 + (maxViolatingPairNu kEnv kSt).2.2.1.1)
+    ((maxViolatingPairNu kEnv kSt).2.1.1 + (maxViolatingPairNu kEnv kSt).2.2.2.1) < kEnv.eps := by
+  decide +kernel
+
+/-- **what `solve` returns is feasible, and eps-KKT unless it stopped at the iteration limit**
+(plain form, `nu_constraint = false`).  For every start that `SolverState::new` can produce from a
+feasible `α` (box, equal lengths, positive bounds), every kernel, shrinking on or off, every fuel:
+* the state the main loop returns is in the box, has the initial `Σ y α` and the problem's size
+  (also when the fuel — `max_iter` — ran out: `ExitReason::ReachedIterations`);
+* if the loop ended by `break` (`ExitReason::ReachedThreshold`) all variables are active and, for the
+  gradient the state holds, the oracle's clause set `kkt` holds with `rho := calculate_rho()` —
+  whichever of its three reasons made `select_working_set` answer `is_optimal`.
+Guards: `eps ≥ 0`, `C > 0` (`SvmParams::check`), `1e-10 > 0`; `e.inf` stands for `F::infinity()`. -/
+theorem solve_returns_kkt_or_maxiter (e : Env α) (hnu : e.nu = false) (heps : 0 ≤ e.eps)
+    (htiny : 0 < e.tiny) (hinf : 0 ≤ e.inf) (shrinking : Bool) (fuel : Nat) (s : St α)
+    (iter counter : Nat) (hb : Box s) (hy : s.y.length = s.alpha.length)
+    (hn : s.nactive ≤ s.alpha.length) (hub : s.ub.length = s.alpha.length)
+    (hpos : ∀ k, k < s.alpha.length → 0 < gf s.ub k ∧ 0 < gf s.bounds k) :
+    (Box (solveLoop e shrinking fuel s iter counter).1 ∧
+      ySum (solveLoop e shrinking fuel s iter counter).1 = ySum s ∧
+      (solveLoop e shrinking fuel s iter counter).1.alpha.length = s.alpha.length) ∧
+    ((solveLoop e shrinking fuel s iter counter).2.2 = true →
+      (solveLoop e shrinking fuel s iter counter).1.nactive =
+        (solveLoop e shrinking fuel s iter counter).1.alpha.length ∧
+      ((∀ k, k < (solveLoop e shrinking fuel s iter counter).1.nactive →
+          -e.inf ≤ gf (solveLoop e shrinking fuel s iter counter).1.grad k ∧
+          gf (solveLoop e shrinking fuel s iter counter).1.grad k ≤ e.inf) →
+        KktEps (solveLoop e shrinking fuel s iter counter).1
+          (calculateRho e (solveLoop e shrinking fuel s iter counter).1) e.eps)) := by
+  have hF : Feas s.alpha.length (ySum s) s := ⟨hb, hy, rfl, hn, rfl⟩
+  have hP : UbPos s.alpha.length s := ⟨hub, hb.1, hn, hpos⟩
+  have h1 := solveLoop_feas s.alpha.length (ySum s) e shrinking fuel s iter counter hF
+  obtain ⟨h2, h3⟩ := solveLoop_exit s.alpha.length (ySum s) e shrinking fuel s iter counter hF hP
+  generalize solveLoop e shrinking fuel s iter counter = r at h1 h2 h3 ⊢
+  refine ⟨⟨h1.1, h1.2.2.2.2, h1.2.2.1⟩, ?_⟩
+  intro hfin
+  obtain ⟨hopt, hall⟩ := h3 hfin
+  refine ⟨hall, ?_⟩
+  intro hdom
+  have hrho : calculateRho e r.1 = calculateRhoC e r.1 := by unfold calculateRho; simp [hnu]
+  have hsel : selectWorkingSet e r.1 = selectWorkingSetC e r.1 := by unfold selectWorkingSet; simp [hnu]
+  rw [hrho]
+  rw [hsel] at hopt
+  have hdomY := fun k hk => dom_yG e r.1 k (hdom k hk)
+  exact gap_implies_kkt e r.1 heps
+    (fun k hk => upper_not_lower r.1 k (h2.2.2.2 k (lt_of_lt_of_le hk h2.2.2.1)).1)
+    hdomY (optimal_flag_gap e r.1 heps htiny hinf hdomY hopt)
+
+/-- the example problem solved from `α = 0`: `SolverState::new` gives a state that meets the
+hypotheses, and the loop ends by `break` after one step at `α = (1/2, 1/2)` -/
+example : Box (init kEnv [0, 0] [-1, -1] [1, 1] [true, false]) ∧
+    (solveLoop kEnv false 10 (init kEnv [0, 0] [-1, -1] [1, 1] [true, false]) 0 3).2.2 = true ∧
+    (solveLoop kEnv false 10 (init kEnv [0, 0] [-1, -1] [1, 1] [true, false]) 0 3).1.alpha = [1/2, 1/2] := by
+  refine ⟨⟨rfl, ?_⟩, ?_, ?_⟩
+  · decide +kernel
+  · decide +kernel
+  · decide +kernel
+
+/-- **nu form** (`nu_constraint = true`): what the main loop returns is feasible, and when it ended by
+`break` every active variable satisfies the clause set of the oracle clause `kkt_nu` with
+`(rho, r) := calculate_rho_nu()` — whichever reason made `select_working_set_nu` answer `is_optimal`
+(an empty second-order scan or `max(gmaxp1 + gmaxp2, gmaxn1 + gmaxn2) < eps`).  `-inf` has to lie
+*strictly* below every gradient entry because `max_violating_pair_nu` compares with `>`. -/
+theorem solve_returns_kkt_or_maxiter_nu (e : Env α) (hnu : e.nu = true) (heps : 0 ≤ e.eps)
+    (htiny : 0 < e.tiny) (hinf : 0 ≤ e.inf) (shrinking : Bool) (fuel : Nat) (s : St α)
+    (iter counter : Nat) (hb : Box s) (hy : s.y.length = s.alpha.length)
+    (hn : s.nactive ≤ s.alpha.length) (hub : s.ub.length = s.alpha.length)
+    (hpos : ∀ k, k < s.alpha.length → 0 < gf s.ub k ∧ 0 < gf s.bounds k) :
+    (Box (solveLoop e shrinking fuel s iter counter).1 ∧
+      ySum (solveLoop e shrinking fuel s iter counter).1 = ySum s ∧
+      (solveLoop e shrinking fuel s iter counter).1.alpha.length = s.alpha.length) ∧
+    ((solveLoop e shrinking fuel s iter counter).2.2 = true →
+      (solveLoop e shrinking fuel s iter counter).1.nactive =
+        (solveLoop e shrinking fuel s iter counter).1.alpha.length ∧
+      ((∀ k, k < (solveLoop e shrinking fuel s iter counter).1.nactive →
+          -e.inf < gf (solveLoop e shrinking fuel s iter counter).1.grad k ∧
+          gf (solveLoop e shrinking fuel s iter counter).1.grad k < e.inf) →
+        KktNuEps (solveLoop e shrinking fuel s iter counter).1
+          ((calculateRhoNu e (solveLoop e shrinking fuel s iter counter).1).2 +
+            (calculateRhoNu e (solveLoop e shrinking fuel s iter counter).1).1)
+          ((calculateRhoNu e (solveLoop e shrinking fuel s iter counter).1).2 -
+            (calculateRhoNu e (solveLoop e shrinking fuel s iter counter).1).1) e.eps)) := by
+  have hF : Feas s.alpha.length (ySum s) s := ⟨hb, hy, rfl, hn, rfl⟩
+  have hP : UbPos s.alpha.length s := ⟨hub, hb.1, hn, hpos⟩
+  have h1 := solveLoop_feas s.alpha.length (ySum s) e shrinking fuel s iter counter hF
+  obtain ⟨h2, h3⟩ := solveLoop_exit s.alpha.length (ySum s) e shrinking fuel s iter counter hF hP
+  generalize solveLoop e shrinking fuel s iter counter = r at h1 h2 h3 ⊢
+  refine ⟨⟨h1.1, h1.2.2.2.2, h1.2.2.1⟩, ?_⟩
+  intro hfin
+  obtain ⟨hopt, hall⟩ := h3 hfin
+  refine ⟨hall, ?_⟩
+  intro hdom
+  have hsel : selectWorkingSet e r.1 = selectWorkingSetNu e r.1 := by unfold selectWorkingSet; simp [hnu]
+  rw [hsel] at hopt
+  obtain ⟨s1, s2⟩ := calculateRhoNu_split e r.1
+  rw [s1, s2]
+  have hul := fun k hk => upper_not_lower r.1 k (h2.2.2.2 k (lt_of_lt_of_le hk h2.2.2.1)).1
+  have hdom' : ∀ k, k < r.1.nactive → -e.inf ≤ gf r.1.grad k ∧ gf r.1.grad k ≤ e.inf :=
+    fun k hk => ⟨le_of_lt (hdom k hk).1, le_of_lt (hdom k hk).2⟩
+  intro i hi
+  cases hyi : gb r.1.y i
+  · simpa using nu_gap_class e r.1 false heps hul hdom'
+      (optimal_flag_gap_nu e r.1 heps htiny hinf hdom hopt false) i hi hyi
+  · simpa using nu_gap_class e r.1 true heps hul hdom'
+      (optimal_flag_gap_nu e r.1 heps htiny hinf hdom hopt true) i hi hyi
+
+/-- a nu start on the example (`p = 0`, `α = (1/2, 1/2)` = `ν n / 2` per class): the loop ends by `break` -/
+example : (solveLoop { kEnv with nu := true } false 10
+    (init { kEnv with nu := true } [1/2, 1/2] [0, 0] [1, 1] [true, false]) 0 3).2.2 = true := by
+  decide +kernel
 
 /-- **under `nu_constraint` both selected variables belong to one class** -/
 theorem nu_selected_pair_same_class (e : Env α) (s : St α) (i j : Nat)
